@@ -292,11 +292,22 @@ fn check_texture(c: &Case, file: &[u8], data: &[u8], ctx: &Ctx) -> PResult {
     Ok(())
 }
 
+/// run the check on a thread of its own: the decode is then the first thing that thread ever does (a decoder is a function of
+/// the file, not of what the calling thread decoded before)
+fn check_on_fresh_thread(c: &Case, file: &[u8], data: &[u8], ctx: &Ctx) -> PResult {
+    std::thread::scope(|s| s.spawn(|| check_texture(c, file, data, ctx)).join()).unwrap_or_else(|_| fail("harness-panic", "the checking thread panicked"))
+}
+
 fn prop(c: &Case, ctx: &Ctx) -> PResult {
     let data = payload(c);
     let mut file = header(c);
     file.extend_from_slice(&data);
-    check_texture(c, &file, &data, ctx)?;
+    if c.seed % 16 == 3 {
+        ctx.class("decoded-on-a-fresh-thread");
+        check_on_fresh_thread(c, &file, &data, ctx)?;
+    } else {
+        check_texture(c, &file, &data, ctx)?;
+    }
     let partial = c.width % 4 != 0 || (c.height as usize * c.depth as usize) % 4 != 0;
     if partial {
         ctx.class("partial-edge-block");
@@ -416,6 +427,74 @@ fn prop_sweep(s: &Sweep, ctx: &Ctx) -> PResult {
 }
 
 /// hand-computed blocks validate the oracle itself
+/// One block decoded as the first thing a thread does: blocks made of the values an implementation is most likely to use
+/// as "nothing yet" markers (all zeros, all ones, equal endpoints) and a few ordinary ones.
+#[derive(Clone, Debug, Serialize, Deserialize)]
+pub struct First {
+    pub format: u32,
+    pub block: Vec<u8>,
+}
+
+fn first_cases(_: &Ctx) -> Vec<First> {
+    let mut v = vec![];
+    let q: [u16; 6] = [0x0000, 0xFFFF, 0x0001, 0x8000, 0xF800, 0x1234];
+    let sel: [u32; 5] = [0, 0xFFFF_FFFF, 0xAAAA_AAAA, 0x5555_5555, 0x1B1B_1B1B];
+    let mut colour: Vec<Vec<u8>> = vec![];
+    for q0 in q {
+        for q1 in q {
+            for s in sel {
+                let mut b = vec![];
+                b.extend_from_slice(&q0.to_le_bytes());
+                b.extend_from_slice(&q1.to_le_bytes());
+                b.extend_from_slice(&s.to_le_bytes());
+                colour.push(b);
+            }
+        }
+    }
+    let a: [u8; 4] = [0, 255, 1, 128];
+    let asel: [u64; 3] = [0, 0xFFFF_FFFF_FFFF, 0xFAC6_88FA_C688 & 0xFFFF_FFFF_FFFF];
+    let mut alpha: Vec<Vec<u8>> = vec![];
+    for a0 in a {
+        for a1 in a {
+            for s in asel {
+                let mut b = vec![a0, a1];
+                b.extend_from_slice(&s.to_le_bytes()[..6]);
+                alpha.push(b);
+            }
+        }
+    }
+    for c in &colour {
+        v.push(First { format: F_BC1, block: c.clone() });
+    }
+    for (i, al) in alpha.iter().enumerate() {
+        for k in 0..6 {
+            let c = &colour[(i * 7 + k * 31) % colour.len()];
+            v.push(First { format: F_BC3, block: [al.clone(), c.clone()].concat() });
+        }
+        // the all-zero and all-ones colour halves with every alpha half
+        v.push(First { format: F_BC3, block: [al.clone(), vec![0u8; 8]].concat() });
+        v.push(First { format: F_BC3, block: [al.clone(), vec![0xFFu8; 8]].concat() });
+    }
+    for r in &alpha {
+        for g in alpha.iter().step_by(5) {
+            v.push(First { format: F_BC5, block: [r.clone(), g.clone()].concat() });
+        }
+    }
+    for fill in [0x00u8, 0xFF, 0x01, 0x80] {
+        v.push(First { format: F_BGRA, block: vec![fill; 64] });
+    }
+    v
+}
+
+fn prop_first(f: &First, ctx: &Ctx) -> PResult {
+    let c = Case { format: f.format, width: 4, height: 4, depth: 1, attribute: 0, mips: 1, seed: 0, trailing: 0, tie_bias: 0 };
+    let mut file = header(&c);
+    file.extend_from_slice(&f.block);
+    ctx.classf(format!("first-on-thread:{}", format_name(f.format)));
+    ctx.nontrivial(&file);
+    check_on_fresh_thread(&c, &file, &f.block, ctx)
+}
+
 fn pre(ctx: &Ctx) {
     // BC1: c0 = white, c1 = black, 4-colour mode; selector 2 -> (2*255+0)/3 = 170, selector 3 -> 85
     let blk = [0xFF, 0xFF, 0x00, 0x00, 0b1110_0100, 0, 0, 0];
@@ -438,12 +517,13 @@ fn pre(ctx: &Ctx) {
 pub fn property() -> Property {
     Property {
         id: "C13",
-        rule: "format in {B8G8R8A8, BC1, BC3, BC5}; width, height 1..64 (512 thorough) including non-multiples of 4; depth 1..8 (height rounded to a multiple of 4 when depth > 1); arbitrary attribute flags, mip field, LOD / surface offsets, 0..200 trailing bytes; random payload with endpoint ties / orderings forced on a random fraction of the blocks and one block in sixteen degenerate as a whole (all 0x00, all 0xFF, one repeated byte). Sweep part: for BC1/BC3/BC5 x 6 endpoint pairs x 3 orderings (>, =, <) x 16 pixel positions x every selector value (4 colour / 8 alpha). Oracle: own per-pixel evaluation from the format definition: BGRA->RGBA; RGB565 endpoints by bit replication (exact); interpolated entries accepted in [floor, ceil] of the exact rational (2a+b)/3, (a+b)/2, ((8-k)a+(k-1)b)/7, ((6-k)a+(k-1)b)/5, and per image and denominator one rounding rule (down, nearest, up) must explain every non-integral interpolant; BC1 black entry RGB = 0 with unconstrained alpha; BC3 = alpha block over BC1 colour; BC5 = R, G from the two blocks, B = 0, A = 255; rgba.len() = 4wh d; 3-D iff attribute bit 0x1000000. Non-trivial: BCn image with a partial edge block, or depth > 1; distinct by hash of the file.",
+        rule: "format in {B8G8R8A8, BC1, BC3, BC5}; width, height 1..64 (512 thorough) including non-multiples of 4; depth 1..8 (height rounded to a multiple of 4 when depth > 1); arbitrary attribute flags, mip field, LOD / surface offsets, 0..200 trailing bytes; one image in sixteen is decoded on a thread that has decoded nothing before, and an enumerated part decodes ~900 single blocks made of marker-like values (all zeros, all ones, equal endpoints) each as the first decode of a new thread; random payload with endpoint ties / orderings forced on a random fraction of the blocks and one block in sixteen degenerate as a whole (all 0x00, all 0xFF, one repeated byte). Sweep part: for BC1/BC3/BC5 x 6 endpoint pairs x 3 orderings (>, =, <) x 16 pixel positions x every selector value (4 colour / 8 alpha). Oracle: own per-pixel evaluation from the format definition: BGRA->RGBA; RGB565 endpoints by bit replication (exact); interpolated entries accepted in [floor, ceil] of the exact rational (2a+b)/3, (a+b)/2, ((8-k)a+(k-1)b)/7, ((6-k)a+(k-1)b)/5, and per image and denominator one rounding rule (down, nearest, up) must explain every non-integral interpolant; BC1 black entry RGB = 0 with unconstrained alpha; BC3 = alpha block over BC1 colour; BC5 = R, G from the two blocks, B = 0, A = 255; rgba.len() = 4wh d; 3-D iff attribute bit 0x1000000. Non-trivial: BCn image with a partial edge block, or depth > 1; distinct by hash of the file.",
         assumptions: &["which rounding rule a decoder uses for interpolants is not asserted (down, nearest and up are all accepted), only that it uses one rule per denominator within an image", "BC3 colour selectors 2/3 when c0 <= c1: the four-colour reading (Direct3D) and the BC1 reading (three colours + black) are both accepted, one per image", "oracle validated on hand-computed blocks at start-up"],
         pre: Some(pre),
         post: None,
         parts: vec![
             Box::new(Part { name: "selector-sweep", driver: Driver::Enum(sweep_cases), prop: prop_sweep, exhaustive: true }),
+            Box::new(Part { name: "first-decode-on-a-thread", driver: Driver::Enum(first_cases), prop: prop_first, exhaustive: true }),
             Box::new(Part { name: "textures", driver: Driver::Gen(strategy, 240_000, 2_880_000), prop, exhaustive: false }),
         ],
     }
